@@ -132,7 +132,9 @@ TRUSTED_BASE = [
     "Simd intrinsic semantics transcribed in X86.v / Neon.v / Wasm.v; Rust semantics of the constructs used",
     "extraction (ExtrOcamlBasic only; no Extract Constant), OCaml 4.13, ocaml/driver.ml",
     "correspondence machinery: Rust harnesses, this Python orchestrator, rustc/cargo, the host CPU, Miri",
-    "tools/srcfacts (syn-based extractor) for the regenerated gen/*.v files",
+    "tools/srcfacts (syn-based extractor) for the regenerated gen/*.v files: facts, ladders, dispatch tables, memory signature",
+    "the source-to-AST translators rustlite.rs (portable.rs, internal.rs) and veclite.rs (SIMD kernels), the RustLite / VecLite "
+    "interpreters (the meaning given to the Rust fragment) and the primitive tables mapping intrinsic names to model functions",
 ]
 
 
